@@ -1,16 +1,16 @@
 SPECIFICATION Spec
 CONSTANTS
-  MaxH = 3
-  MaxRestarts = 1
-  FullNode = TRUE
+  MaxH = 2
+  MaxRestarts = 2
+  FullNode = FALSE
   Cap = 2
   Weaken = "none"
   GapFix = FALSE
-  CertRounds = {1}
+  CertRounds = {1, 2}
   Direct = FALSE
   MidCrash = TRUE
   Timeouts = FALSE
-  MaxWriteFaults = 0
+  MaxWriteFaults = 2
 INVARIANT ContainerOK
 INVARIANT TopIsHeight
 INVARIANT StorageShape
